@@ -3,12 +3,14 @@ package main
 import (
 	"fmt"
 	"go/ast"
+	"go/build"
 	"go/importer"
 	"go/parser"
 	"go/token"
 	"go/types"
 	"os"
 	"path/filepath"
+	"runtime"
 	"sort"
 	"strings"
 )
@@ -19,6 +21,7 @@ type unsupported struct{ msg string }
 func (u *unsupported) Error() string { return u.msg }
 
 type pkgInfo struct {
+	std   bool // a package of the toolchain's standard library named by --stdpkg (sources under GOROOT/src)
 	path  string
 	dir   string
 	pkg   *types.Package
@@ -34,6 +37,12 @@ type world struct {
 	std   types.Importer
 	pkgs  map[string]*pkgInfo
 	order []string // load order of repository packages
+	// --stdpkg: import paths of standard-library packages that are translated from
+	// their sources under GOROOT/src (stage 8); goroot and the toolchain version
+	// (GOROOT/VERSION) go into the header of the generated file
+	stdpkgs map[string]bool
+	goroot  string
+	gover   string
 }
 
 func readModulePath(repo string) (string, error) {
@@ -68,7 +77,7 @@ func (w *world) Import(path string) (*types.Package, error) {
 	if p, ok := w.pkgs[path]; ok {
 		return p.pkg, nil
 	}
-	if path == w.mod || strings.HasPrefix(path, w.mod+"/") {
+	if path == w.mod || strings.HasPrefix(path, w.mod+"/") || w.stdpkgs[path] {
 		p, err := w.load(path)
 		if err != nil {
 			return nil, err
@@ -83,6 +92,9 @@ func (w *world) load(path string) (*pkgInfo, error) {
 		return p, nil
 	}
 	dir := filepath.Join(w.repo, strings.TrimPrefix(strings.TrimPrefix(path, w.mod), "/"))
+	if w.stdpkgs[path] {
+		dir = filepath.Join(w.goroot, "src", filepath.FromSlash(path))
+	}
 	ents, err := os.ReadDir(dir)
 	if err != nil {
 		return nil, err
@@ -96,7 +108,7 @@ func (w *world) load(path string) (*pkgInfo, error) {
 		names = append(names, n)
 	}
 	sort.Strings(names)
-	p := &pkgInfo{path: path, dir: dir, src: map[string][]byte{}}
+	p := &pkgInfo{path: path, dir: dir, src: map[string][]byte{}, std: w.stdpkgs[path]}
 	for _, n := range names {
 		fn := filepath.Join(dir, n)
 		b, err := os.ReadFile(fn)
@@ -132,9 +144,45 @@ func (w *world) load(path string) (*pkgInfo, error) {
 
 func (w *world) pos(n ast.Node) string {
 	p := w.fset.Position(n.Pos())
+	if w.goroot != "" {
+		if rel, err := filepath.Rel(w.goroot, p.Filename); err == nil && !strings.HasPrefix(rel, "..") {
+			return fmt.Sprintf("$GOROOT/%s:%d", filepath.ToSlash(rel), p.Line)
+		}
+	}
 	rel, err := filepath.Rel(w.repo, p.Filename)
 	if err != nil {
 		rel = p.Filename
 	}
 	return fmt.Sprintf("%s:%d", rel, p.Line)
+}
+
+// useStd registers standard-library packages to be translated from source
+// (--stdpkg): GOROOT is the one of the toolchain that also type-checks the
+// repository (go/build), its version is read from GOROOT/VERSION.
+func (w *world) useStd(paths []string) error {
+	if len(paths) == 0 {
+		return nil
+	}
+	w.goroot = build.Default.GOROOT
+	if w.goroot == "" {
+		w.goroot = runtime.GOROOT()
+	}
+	if w.goroot == "" {
+		return fmt.Errorf("--stdpkg: GOROOT unknown")
+	}
+	w.gover = runtime.Version()
+	if b, err := os.ReadFile(filepath.Join(w.goroot, "VERSION")); err == nil {
+		if f := strings.Fields(string(b)); len(f) > 0 {
+			w.gover = f[0]
+		}
+	}
+	w.stdpkgs = map[string]bool{}
+	for _, p := range paths {
+		p = strings.TrimSpace(p)
+		if st, err := os.Stat(filepath.Join(w.goroot, "src", filepath.FromSlash(p))); err != nil || !st.IsDir() {
+			return fmt.Errorf("--stdpkg %s: no such package under %s/src", p, w.goroot)
+		}
+		w.stdpkgs[p] = true
+	}
+	return nil
 }
